@@ -334,6 +334,13 @@ def scan_window(ctx, s, fn, filt):
         is_f = lambda v, acc_: v[0] == "call" and v[1].endswith("::" + acc_) and v[2] and v[2][0] == filt
         ok_u = is_f(a_until, "until")
         ok_s = is_f(a_since, "since") or (a_since[0] == "phi" and a_since[2][0] == "local" and a_since[2][1] in since_locals)
+        if not ok_s and a_since[0] == "phi":
+            # a moving lower bound kept in some other variable: everything that flows into it is the filter's since or the
+            # time of an event (it is only ever raised: judged by since-only-raised where the variable is the query's own)
+            from ..srules import leaf_values
+            lv = leaf_values(an, a_since)
+            ok_s = bool(lv) and all(is_f(x, "since") or contains_value(x, lambda y: y[0] == "call" and y[1].endswith("::created_at"))
+                                    for x in lv)
         short = cf.nice.split("::")[-1]
         s.add("S-REL", fn, "scan-window", "%s@%s" % (short, _plan(an, b)), info["sp"], PROVED if (ok_u and ok_s) else VIOLATION,
               "the scan runs from filter.until() down to filter.since() (or the raised lower bound)" if (ok_u and ok_s) else
@@ -449,10 +456,14 @@ def drain(ctx, s, fn):
 def scrape_gate(ctx, s, fn, filt):
     an = ctx.E.an(fn)
     P = ctx.E.prover(fn)
+    # where the refusal is decided: the blocks that build InnerError::Scraper (wherever the error then travels -
+    # straight to the return, or out of a helper through `?`)
     errs = []
-    for node, kind, v in s.return_kinds(fn):
-        if kind == "err" and contains_value(v, lambda x: x[0] == "agg" and x[1].endswith(":Scraper")):
-            errs.append((node, v))
+    seen_b = set()
+    for (b_, i_), v in sorted(an.stmt_val.items(), key=lambda kv: (kv[0][0], str(kv[0][1]))):
+        if v is not None and b_ not in seen_b and contains_value(v, lambda x: x[0] == "agg" and isinstance(x[1], str) and x[1].endswith(":Scraper")):
+            seen_b.add(b_)
+            errs.append((b_, v))
     ctx.floor("C05.scraper-error-returns", len(errs), 1)
     params = {fn.local_name(i): ("param", i) for i in range(1, fn.argc + 1)}
     for node, v in errs:
